@@ -629,3 +629,144 @@ func CheckAll() map[string][]string {
 	}
 	return out
 }
+
+
+// ---- schema evolution (C16) ----
+
+var Pairs [][2]string
+
+func RegisterPair(a, b string) { Pairs = append(Pairs, [2]string{a, b}) }
+
+func zeroField(f Field, depth int) string {
+	switch {
+	case f.List:
+		return "[]"
+	case f.Kind == "msg":
+		d := Msgs[f.Ref]
+		var parts []string
+		for _, g := range d.Fields {
+			if depth+1 >= 2 && g.Kind == "msg" {
+				continue
+			}
+			parts = append(parts, fmt.Sprintf("%d=%s", g.Tag, zeroField(g, depth+1)))
+		}
+		return "{" + strings.Join(parts, " ") + "}"
+	case f.Kind == "struct":
+		return fmt.Sprintf("%v", Structs[f.Ref].Zero())
+	case f.Kind == "enum":
+		return "0"
+	case f.Kind == "any":
+		return "any:0"
+	case f.Kind == "anymsg":
+		return "anymsg:0"
+	}
+	return show(scalar(f.Kind, 0, f.Tag))
+}
+
+func sameWire(a, b Field) bool { return a.Tag == b.Tag && a.Kind == b.Kind && a.List == b.List && a.Ref == b.Ref }
+
+// crossRead: write `from` (value set), read with `to`.
+func crossRead(from, to *Msg, variant, only int, dir string) (problems []string) {
+	w := reflect.ValueOf(from.New())
+	written := map[uint16]Field{}
+	for i, f := range from.Fields {
+		if only >= 0 && only != i {
+			continue
+		}
+		if err := setField(w, f, variant, 0); err != nil {
+			return []string{fmt.Sprintf("%s writing %s.%s: %v", dir, from.Key, f.Name, err)}
+		}
+		written[f.Tag] = f
+	}
+	rv := call(w, "Build")
+	if err := errOf(rv); err != nil {
+		return []string{fmt.Sprintf("%s Build: %v", dir, err)}
+	}
+	raw := call(rv[0], "Unwrap")[0].Interface().(spec.Message).Raw()
+	many, err := to.Open(raw)
+	if err != nil {
+		return []string{fmt.Sprintf("%s: the other schema version cannot open the message: %v", dir, err)}
+	}
+	m := reflect.ValueOf(many)
+	for _, g := range to.Fields {
+		wf, was := written[g.Tag]
+		has := call(m, "Has"+g.Go)[0].Bool()
+		switch {
+		case was && sameWire(wf, g):
+			exp := expectField(wf, variant, 0)
+			if got := readField(m, g, 0); got != exp || !has {
+				problems = append(problems, fmt.Sprintf("%s: common field tag %d (%s -> %s) reads %s (has=%v), written %s", dir, g.Tag, wf.Name, g.Name, clip(got), has, clip(exp)))
+			}
+		case !was:
+			if has {
+				problems = append(problems, fmt.Sprintf("%s: field %s (tag %d) absent from the data but Has%s is true", dir, g.Name, g.Tag, g.Go))
+			}
+			if got, z := readField(m, g, 0), zeroField(g, 0); got != z {
+				problems = append(problems, fmt.Sprintf("%s: field %s (tag %d) absent from the data reads %s, want the zero value %s", dir, g.Name, g.Tag, clip(got), clip(z)))
+			}
+		}
+	}
+	// Copy/Merge through the other version's writer preserves fields it does not know
+	wb := reflect.ValueOf(to.New())
+	if err := errOf(call(wb, "Merge", many)); err != nil {
+		return append(problems, fmt.Sprintf("%s: Merge: %v", dir, err))
+	}
+	rv2 := call(wb, "Build")
+	if err := errOf(rv2); err != nil {
+		return append(problems, fmt.Sprintf("%s: Build after Merge: %v", dir, err))
+	}
+	raw2 := call(rv2[0], "Unwrap")[0].Interface().(spec.Message).Raw()
+	back, err := from.Open(raw2)
+	if err != nil {
+		return append(problems, fmt.Sprintf("%s: original version cannot open the merged message: %v", dir, err))
+	}
+	mb := reflect.ValueOf(back)
+	for i, f := range from.Fields {
+		if only >= 0 && only != i {
+			continue
+		}
+		if got, exp := readField(mb, f, 0), expectField(f, variant, 0); got != exp {
+			problems = append(problems, fmt.Sprintf("%s: after Merge through the other version field %s (tag %d) reads %s, written %s (unknown fields must be preserved)", dir, f.Name, f.Tag, clip(got), clip(exp)))
+		}
+	}
+	return
+}
+
+func CheckPair(a, b *Msg) (problems []string) {
+	defer func() {
+		if e := recover(); e != nil {
+			problems = append(problems, fmt.Sprintf("%s <-> %s: panic: %v", a.Key, b.Key, e))
+		}
+	}()
+	for _, dir := range []struct {
+		from, to *Msg
+		name     string
+	}{{a, b, "A->A'"}, {b, a, "A'->A"}} {
+		for _, variant := range []int{0, 1, 2} {
+			problems = append(problems, crossRead(dir.from, dir.to, variant, -1, dir.name)...)
+		}
+		for i := range dir.from.Fields {
+			problems = append(problems, crossRead(dir.from, dir.to, 2, i, dir.name+" one-hot")...)
+		}
+		if len(problems) > 4 {
+			break
+		}
+	}
+	return
+}
+
+// CheckEverything: CheckAll plus the registered evolution pairs (problems are attributed to the A' package).
+func CheckEverything() map[string][]string {
+	out := CheckAll()
+	for _, p := range Pairs {
+		a, b := Msgs[p[0]], Msgs[p[1]]
+		if a == nil || b == nil {
+			continue
+		}
+		if ps := CheckPair(a, b); len(ps) > 0 {
+			pkg := p[1][:strings.Index(p[1], ".")]
+			out[pkg] = append(out[pkg], ps...)
+		}
+	}
+	return out
+}
